@@ -88,6 +88,39 @@ theorem inFrag_spec {k : Nat} {TPx : TP} {ti : TreeInfo} {t : GoNode} (h : InFra
   simp only [InFrag, Bool.and_eq_true, decide_eq_true_eq, Bool.not_eq_true', beq_iff_eq] at h
   exact ⟨h.1.1.1, h.1.1.2, h.1.2, h.2⟩
 
+/-- `Lazybranch|Back` on a frame whose data slot is any integer (the bottom frame after `UpdateBumpalong`): the
+    interpreter stands in front of the target; the text position is that integer -/
+theorem lazybranch_back_raw {X : Setup} {a t : Nat} {z : Int} {T S : List Int} {C : List (Nat × Nat × Nat)} {s : VMState}
+    (hfail : FailAt X ((a : Int) :: z :: T) S C s) (hia : InstrAt X.p a (i1 opLazybranch (t : Int)))
+    (hf : ∃ w, VM.fetch X.p t = .ok w) :
+    Leads X s (fun s' => s'.codepos = t ∧ VM.fetch X.p t = .ok s'.oper ∧ s'.track = T ∧ s'.stack = S ∧
+      CapRep X.sl X.p.capsize s'.cap C) := by
+  obtain ⟨w, hw⟩ := hf
+  obtain ⟨s2, chk, hst, hbe⟩ := fail_step hfail hia.fetch
+  refine Leads.of_step hst ?_
+  have hoper : s2.oper = ⟨opLazybranch, false, true, false, false⟩ := by
+    have : decode (i1 opLazybranch (t : Int)).op = ⟨opLazybranch, false, false, false, false⟩ :=
+      decode_plain opLazybranch (by decide)
+    rw [hbe.op, this]
+  have hop : Op.ofNat? s2.oper.op = some .lazybranch := by rw [hoper]; rfl
+  have hb : s2.oper.back = true := by rw [hoper]
+  have hb2 : s2.oper.back2 = false := by rw [hoper]
+  have hbody : VM.body X.p X.env s2 = .ok (VM.textto { s2 with track := T } z, .goto (t : Int)) := by
+    simp only [body, hop, modeOf, hb, hb2, caseLazybranchBack, hbe.tr, hia.operand hbe.pc 0 (t : Int) rfl, Except.map]
+  exact Leads.of_step (step_goto hbody hw) (Leads.here ⟨rfl, hw, rfl, hbe.st, hbe.cap⟩)
+
+theorem stop_step_raw {X : Setup} {a : Nat} {s : VMState} (hpc : s.codepos = a) (hop : VM.fetch X.p a = .ok s.oper)
+    (hia : InstrAt X.p a (i0 opStop)) : VM.step X.p X.env s = .stop s := by
+  have hoper : s.oper = ⟨opStop, false, false, false, false⟩ := by
+    have := hia.fetch
+    rw [hop] at this
+    rw [Except.ok.inj this]; exact decode_plain opStop (by decide)
+  have hop' : Op.ofNat? s.oper.op = some .stop := by rw [hoper]; rfl
+  have hb : s.oper.back = false := by rw [hoper]
+  have hb2 : s.oper.back2 = false := by rw [hoper]
+  have hbody : VM.body X.p X.env s = .ok (s, .halt) := by simp only [body, hop', modeOf, hb, hb2]
+  rw [step_of_body_ok X.p X.env hbody]; rfl
+
 /-- what the final state of an attempt says about the specification's answer -/
 structure Agrees (ti : TreeInfo) (se : Spec.Env) (pat : Pat) (i : Nat) (s : VMState) : Prop where
   /-- `runmatch.matchcount[0] > 0` exactly when the specification's attempt succeeds -/
@@ -129,25 +162,26 @@ theorem compile_correct_upto (k : Nat) (hk : k ≤ maxTier) (ti : TreeInfo) (t :
   obtain ⟨s1, hr1, he1⟩ := lazybranch_leads (X := W.X) he0 hlb hroot.fetch_start
   have hwfst : St.wf se.n ⟨i, []⟩ := ⟨hi, by simp⟩
   have hdel := node_delivers W hk t 2 ⟨[], []⟩ (.cap 0 pat) htier hpr hok hcaps hbd hroot (TabExt.refl _) i
-    [(0 : Int), (i : Int)] [] [] s1 hwfst (by simp) (by simpa using he1)
-  replace hdel : Delivers W.X (2 + size (mainCfg ti) t) [(0 : Int), (i : Int)] [] [] []
+    [(0 : Int)] [] (i : Int) [] s1 hwfst (by simpa using he1)
+  replace hdel : Delivers W.X (2 + size (mainCfg ti) t) [(0 : Int)] [] [] []
       (m se (.cap 0 pat) false ⟨i, []⟩) s1 := hdel
   refine ⟨s0, ?_⟩
   cases hrs : m se (.cap 0 pat) false ⟨i, []⟩ with
   | nil =>
     rw [hrs] at hdel
-    obtain ⟨s2, hr2, hf2⟩ := hdel
-    obtain ⟨s3, hr3, he3⟩ := lazybranch_back (X := W.X) (T := []) (by simpa using hf2) hlb ⟨_, hstop.fetch⟩
-    have hst := stop_step he3 hstop
+    obtain ⟨s2, hr2, v', hf2⟩ := hdel
+    obtain ⟨s3, hr3, hpc3, hop3, _, _, hcap3⟩ := lazybranch_back_raw (X := W.X) (a := 0) (T := []) (by simpa using hf2) hlb
+      ⟨_, hstop.fetch⟩
+    have hst := stop_step_raw hpc3 hop3 hstop
     obtain ⟨n, hn⟩ := run_of_reach ((hr1.trans hr2).trans hr3) hst
     refine ⟨s3, n, hinit, hn, ?_⟩
     have hatt : Spec.attempt se pat false i = none := by simp [Spec.attempt, hrs]
     refine ⟨?_, by simp [hatt], by simp [hatt]⟩
-    have hcnt := he3.cap.cnt 0 hcs
+    have hcnt := hcap3.cnt 0 hcs
     simp [VM.matched, hatt, hcnt]
   | cons r rs =>
     rw [hrs] at hdel
-    obtain ⟨F, _, ⟨s2, hr2, he2⟩, _⟩ := hdel
+    obtain ⟨F, _, ⟨s2, hr2, v', he2⟩, _⟩ := hdel
     have hst := stop_step he2 hstop
     obtain ⟨n, hn⟩ := run_of_reach (hr1.trans hr2) hst
     refine ⟨s2, n, hinit, hn, ?_⟩
@@ -238,5 +272,10 @@ def ccT6 : GoNode :=
 def ccT7 : GoNode :=
   .capture 0 (-1) (.concat [.loop false 1 maxInt32 (.capture 1 (-1) (.charloop opOneloop false false 97 0 maxInt32)),
     .char opOne false false 98])
+
+/-- `.*ab` (`Notoneloop(\n)* ; UpdateBumpalong ; Multi "ab"`) -/
+def ccT8 : GoNode :=
+  .capture 0 (-1) (.concat [.charloop opNotoneloop false false 10 0 maxInt32, .bare opUpdateBumpalong,
+    .multi false false [97, 98]])
 
 end RegexVerif.Compile
